@@ -62,6 +62,12 @@ def c16witnessLine (rest : String) : String :=
   | "optional-const-ref" => (IR.Vir.schemasOut optionalConstRefWitness).render
   | _ => "unknown-witness"
 
+/-- `c17witness <name>`: the Lean-side witness term, evaluated: `<schemas-vir>\t<result>` -/
+def c17witnessLine (rest : String) : String :=
+  match vWitness rest.trimAscii.toString with
+  | some w => (IR.Vir.schemasOut w.ss).render ++ " => " ++ Builder.Vir.outcomeOut w.run
+  | none => "unknown-witness"
+
 /-- `bstr <fn> "<string>" ["<string>"]`: the ASCII string helper models -/
 def bstrLine (rest : String) : String :=
   match Sexp.parseMany rest with
